@@ -225,6 +225,7 @@ func checkC01(c *Ctx, e *Env) {
 	c.Count("identity_path_checks", nPaths)
 	ruleFixedDecsShape(c, m)
 	ruleBatchSupplyInvariant(c, m)
+	ruleInvariantsStateOnly(c, m, NewGraph(m.P), "C01.INV")
 	ruleGenesisSupplyCompare(c, m)
 	c.Min("entry points explored", 39, len(r.Handlers))
 	c.Min("committed paths", 300, c.Analysed["committed_paths"])
